@@ -7,8 +7,9 @@ not observable) and its values. -/
 namespace AlgoRun
 open Gen.Algo
 
-/-- `gtreeinit n=<n_nodes> keys=k1,k2,.. k1=<vals> k1_t=<dtype tag> ..` → `key:dtype:alias:vals ; ...` (`E` = an exception) -/
-def handleTreeInit (args : List String) : String :=
+/-- `gtreeinit | gfromdf n=<n_nodes / rows> keys=k1,k2,.. k1=<vals> k1_t=<dtype tag> ..` → `key:dtype:alias:vals ; ...` (`E` = an exception);
+`gfromdf` runs the GENERATED `Tree.from_data_frame` on the frame whose columns are the listed arrays -/
+def handleTreeInit (op : String) (args : List String) : String :=
   match Proto.argInt args "n" with
   | none => "bad-args"
   | some n =>
@@ -16,9 +17,11 @@ def handleTreeInit (args : List String) : String :=
     let cols := keys.map fun k => (k, (Proto.argInts args k).getD [], (Proto.argInt args (k ++ "_t")).getD 0)
     let heap : Py.Bufs := cols.map fun c => c.2.1
     let kwargs : Py.Dict String Py.Arr := (List.range cols.length).zip cols |>.map fun (i, c) => (c.1, ⟨(i : Int), (c.2.1.length : Int), c.2.2⟩)
-    match tree_init heap n kwargs with
+    let res : Option (Py.Bufs × Py.Dict String Py.Arr) :=
+      if op = "gfromdf" then from_data_frame heap kwargs n else (tree_init heap n kwargs).map fun r => (r.1, r.2.1)
+    match res with
     | none => "E"
-    | some (h, nd, _) =>
+    | some (h, nd) =>
       " ; ".intercalate (nd.map fun (k, a) =>
         let al := if a.len ≤ 0 then "-" else if a.buf < (cols.length : Int) then toString a.buf else "n"
         let vs := match Py.Bufs.vals h a with | some l => (if l.isEmpty then "_" else Proto.showInts l) | none => "dangling"
